@@ -45,8 +45,11 @@ def check_sf(ctx, sf_fn, rng):
     rows = lags * step + 1 + int(rng.integers(0, 30))
     cols = int(rng.integers(max(1, (lags + 1) * step), (lags + 1) * step + 40))   # the API bounds the lag count by the column count
     dt = [np.float64, np.float32, np.int64][int(rng.integers(0, 3))]
-    kind = int(rng.integers(0, 3))
-    if kind == 0:
+    kind = int(rng.integers(0, 4))
+    if kind == 3:       # small structure on a huge common offset (differences are exact, sums of squares are not)
+        phase = float(2.0 ** int(rng.integers(16, 27))) + rng.standard_normal((rows, cols)) * 2.0 ** -4
+        dt = np.float64
+    elif kind == 0:
         phase = rng.standard_normal((rows, cols)) * 3
     elif kind == 1:
         phase = np.cumsum(rng.standard_normal((rows, cols)), axis=0)
@@ -85,12 +88,16 @@ def check_sf(ctx, sf_fn, rng):
     ramp = a * np.arange(rows, dtype=float)[:, None] * np.ones((1, cols))
     gr = sf_fn(ramp, lags, step)
     ctx.close("sf_ramp", gr, (a * np.arange(lags) * step) ** 2, 0.0, "structure_function:ramp", dict(wit, slope=a))
+    off = float(2.0 ** int(rng.integers(10, 24)))
+    gro = sf_fn(ramp * 2.0 ** -10 + off, lags, step)       # ramp on a large offset: still exact
+    ctx.close("sf_ramp_with_offset", gro, (a * 2.0 ** -10 * np.arange(lags) * step) ** 2, 0.0, "structure_function:ramp:large_offset", dict(wit, slope=a, offset=off))
     # quadratic in amplitude (exact for a power of two)
     p64 = phase.astype(np.float64)
     g1 = sf_fn(p64, lags, step)
     ctx.check(np.array_equal(sf_fn(p64 * 4.0, lags, step), g1 * 16.0), "structure_function:amplitude_scaling", "sf(4 phase) != 16 sf(phase)", wit)
-    c = float(rng.uniform(0.3, 3))
-    ctx.close("sf_amplitude", sf_fn(p64 * c, lags, step), g1 * c * c, 1e-12 * float(np.abs(g1).max()) * c * c, "structure_function:amplitude_scaling", wit)
+    if kind != 3:       # (a non-dyadic factor on a huge offset rounds the differences themselves)
+        c = float(rng.uniform(0.3, 3))
+        ctx.close("sf_amplitude", sf_fn(p64 * c, lags, step), g1 * c * c, 1e-12 * float(np.abs(g1).max()) * c * c, "structure_function:amplitude_scaling", wit)
 
 
 def check_sf_ensemble(ctx, aotools, sf_fn, rng, N):
@@ -171,6 +178,19 @@ def check_tps(ctx, tps, rng):
         ctx.close("tps_axis", ax, want, 1e-12 * rate, "tps_axis:values:" + par, dict(wit, frame_rate=rate), scale=rate)
 
 
+def check_tps_large(ctx, tps, rng):
+    """More than 2^20 samples, sub-apertures of very different power: still the equal-weight mean of |FFT|^2."""
+    n, nsub = int(rng.choice([16384, 32768])), int(rng.integers(33, 47))
+    lead = () if rng.random() < 0.5 else (2,)
+    amp = 10 ** rng.uniform(-2, 2, nsub)
+    data = rng.standard_normal(lead + (n, nsub)) * amp
+    ctx.case("temporal_ps_large", key=(n, nsub, lead, float(data.flat[0])), nontrivial=True, sample={"n_frames": n, "n_subaps": nsub, "leading": lead})
+    mean_tps, err = tps.calc_slope_temporalps(data)
+    P = np.abs(np.fft.fft(data, axis=-2)[..., : n // 2, :]) ** 2
+    sc = float(P.mean(-1).max())
+    ctx.close("tps_large_vs_fft", mean_tps, P.mean(-1), 1e-10 * sc, "temporal_ps:definition:large_input", {"n_frames": n, "n_subaps": nsub, "leading": lead}, scale=sc)
+
+
 def run(ctx, spec):
     import aotools
     from aotools.turbulence import temporal_ps as tps
@@ -180,3 +200,5 @@ def run(ctx, spec):
         check_sf(ctx, sf_fn, rng)
         check_tps(ctx, tps, rng)
     check_sf_ensemble(ctx, aotools, sf_fn, rng, spec["ensemble_N"])
+    if spec["shard"] % 4 == 2:
+        check_tps_large(ctx, tps, rng)
